@@ -10,6 +10,7 @@ import yaml
 from .. import corr, lean, tables
 
 STREAMS = ["table-regeneration", "documents", "documents-without-libyaml"]
+REGENERATE_SRC = True
 DRIVER_DEPENDS_ON_GENERATED = True
 RULE = ("the constructor tables of the loader class that core.config.load hands to PyYAML are introspected from the "
         "live class and re-emitted as Lean data (table_safe is re-proved against them); documents = every python/* tag "
